@@ -32,7 +32,7 @@ def algo_slack(spec, alg, W):
         al, _, _ = geom.cone_alpha(Wn)
         return eps * al * nrm  # alpha of the cone matrix as given (rows need not be unit vectors)
     if algo in ("VOGP", "VOGP_AD"):
-        z, _, _ = geom.ldp(Wn, np.ones(len(Wn)))
+        z = geom.ldp_certified(Wn, np.ones(len(Wn)))
         return eps * z / np.linalg.norm(z)
     return np.full(W.shape[1], float(eps))  # eps-PAL: eps in every objective
 
@@ -89,7 +89,7 @@ def compare_step(part, spec, exp, b, a, parents=frozenset(), children=frozenset(
 
 def check_run(spec, part="discard"):
     algo = spec["algo"]
-    labels = ["algo=" + algo, "source=" + spec.get("source", "real"), "conf=" + ha.conf_type(spec)]
+    labels = ["algo=" + algo, "source=" + spec.get("source", "real"), "conf=" + ha.conf_type(spec)] + (["far-from-origin"] if spec.get("y_offset") else [])
     alg, ctx = ha.build(spec)
     steps = 0
     nt = False
